@@ -10,6 +10,7 @@ import (
 	"fmt"
 	"io"
 	"net/http"
+	"sort"
 	"strconv"
 	"strings"
 
@@ -39,8 +40,10 @@ func processRequest(tx types.Transaction, req *http.Request) (*types.Interruptio
 	// There is no socket access in the request object, so we neither know the server client nor port.
 	tx.ProcessConnection(client, cport, "", 0)
 	tx.ProcessURI(req.URL.String(), req.Method, req.Proto)
-	for k, vr := range req.Header {
-		for _, v := range vr {
+	// Headers are added in a fixed order: rules that keep the last match
+	// (MATCHED_VAR, captures) must not depend on Go's map iteration order.
+	for _, k := range sortedHeaderKeys(req.Header) {
+		for _, v := range req.Header[k] {
 			tx.AddRequestHeader(k, v)
 		}
 	}
@@ -170,4 +173,13 @@ func obtainStatusCodeFromInterruptionOrDefault(it *types.Interruption, defaultSt
 		return statusCode
 	}
 	return defaultStatusCode
+}
+
+func sortedHeaderKeys(h http.Header) []string {
+	keys := make([]string, 0, len(h))
+	for k := range h {
+		keys = append(keys, k)
+	}
+	sort.Strings(keys)
+	return keys
 }
